@@ -70,6 +70,11 @@ RECIPES.update({
     'vegas_point_ctor3': dict(unit='drivers', name='vegas_point', cls='vegas_point', self='vegas_point', ctor=True, sel='vegas_pdf'),
     'vegas_point_bin': dict(unit='drivers', name='bin', cls='vegas_point', self='vegas_point'),
     'vegas_result_ctor3': dict(unit='drivers', name='vegas_result', cls='vegas_result', self='vegas_result', ctor=True, sel='plain_result'),
+    'discrete_distribution_ctor2': dict(unit='drivers', name='discrete_distribution', cls='discrete_distribution', self='discrete_distribution', ctor=True, sel='__normal_iterator'),
+    'discrete_distribution_call': dict(unit='drivers', name='operator()', cls='discrete_distribution', self='discrete_distribution'),
+    'multi_channel_point2_ctor7': dict(unit='drivers', name='multi_channel_point2', cls='multi_channel_point2', self='multi_channel_point2', ctor=True, sel='std::size_t'),
+    'multi_channel_point2_weight': dict(unit='drivers', name='weight', cls='multi_channel_point2', self='multi_channel_point2', opts=dict(_ACC_OPTS, mutable_self=True)),
+    'multi_channel_point_ctor4': dict(unit='drivers', name='multi_channel_point', cls='multi_channel_point', self='multi_channel_point', ctor=True, sel='std::size_t'),
     'plain_iteration': dict(unit='drivers', name='plain_iteration', opts=_IT_OPTS),
     'vegas_iteration': dict(unit='drivers', name='vegas_iteration', opts=_IT_OPTS),
     'multi_channel_iteration': dict(unit='drivers', name='multi_channel_iteration', opts=_IT_OPTS),
@@ -137,6 +142,21 @@ JOBS = [
          preludes=['opaque.h'], late_preludes=['stubs.h'], globals=_GHOSTS,
          defines=['VP_DIMSMAX=1024', 'VP_BINSMAX=1048576', 'VP_CALLSMAX=1099511627776'], props=['C02', 'C10', 'C17', 'C06', 'C19'],
          trusted=[_T_USER, 'std::generate_canonical: assumed contract (value in [0,1], fixed raw draws per number)']),
+    dict(name='partial_sum', functions=[], specs=['partial_sum'], harness_sections=['partial_sum'], entry='h_partial_sum', enforce='vp_partial_sum',
+         late_preludes=['algo.h'], defines=['VP_ALGO_BODIES', 'VP_NMAX=1048576'], props=['C09'], thorough_reals=['float'],
+         trusted=['libstdc++ std::partial_sum behaves like the reference left fold in vp/prelude/algo.h ([partial.sum])']),
+    dict(name='discrete_ctor', functions=['discrete_distribution_ctor2'], entry='h_discrete_distribution_ctor2', enforce='discrete_distribution_ctor2',
+         replace=['vp_partial_sum'], af=['discrete_distribution_ctor2'], structs=[dict(unit='drivers', cls='discrete_distribution')],
+         late_preludes=['algo.h'], globals='_Bool vp_g_total_ok;', defines=['VP_NMAX=1048576'], props=['C09', 'C17'], thorough_reals=['float'],
+         trusted=['L-mono-div: IEEE division by a fixed positive divisor is monotone in the dividend (two-division comparison, undecided by the back ends)']),
+    dict(name='discrete_call', functions=['discrete_distribution_call'], entry='h_discrete_distribution_call', enforce='discrete_distribution_call',
+         replace=['vp_lower_bound', 'vp_upper_bound'], structs=[dict(unit='drivers', cls='discrete_distribution')],
+         late_preludes=['stubs.h', 'algo.h'], globals='size_t vp_draws; T vp_last_u; _Bool vp_g_total_ok;', defines=['VP_NMAX=1048576'], props=['C09', 'C10', 'C17'],
+         trusted=['std::lower_bound / std::upper_bound: assumed partition-point contract on a sorted range', 'std::generate_canonical: assumed contract']),
+    dict(name='discrete_select', functions=['discrete_distribution_ctor2', 'discrete_distribution_call'], specs=['discrete_distribution_ctor2', 'discrete_distribution_call', 'discrete_select'],
+         harness_sections=['discrete_select'], entry='h_discrete_select', enforce=None, replace=['discrete_distribution_ctor2', 'discrete_distribution_call'],
+         structs=[dict(unit='drivers', cls='discrete_distribution')], late_preludes=['stubs.h', 'algo.h'],
+         globals='size_t vp_draws; T vp_last_u; _Bool vp_g_total_ok;', defines=['VP_NMAX=1048576'], props=['C09', 'C17'], loop_contracts=False),
     dict(name='refine_weights', functions=['multi_channel_refine_weights'], entry='h_multi_channel_refine_weights',
          enforce='multi_channel_refine_weights', replace=['vp_pow'], real='double', defines=['VP_NMAX=4096'],
          props=[]),
